@@ -62,7 +62,7 @@ P = {
    note=TB + " Code pages other than 1200 and BIFF2-5 string branches are not modelled.",
    technique="Coq proof (induction over strings/segments with a reader-position invariant) + extracted-model correspondence",
    design_ref="5/C12"),
- "C15": dict(claimed=True,
+ "C15": dict(claimed=False, reason="temporarily not claimed: the SharedFmla model is being brought up to date with the fix: commits 7595189, 0817afa, 2d75670 (the check reports the stale model as a broken correspondence until then)",
    text="Coq theorems over SharedFmla.v: C15_translate_correct (for every well-formed token list in range and outside the known classes "
         "replace_cell_names (render ts) off = render (map (translate off) ts); scanner-splitting lemma + induction over tokens), "
         "the vertical-group variant, C15_inert_text, C15_group_covers_range (offset-map construction and lookup, total and exact), "
@@ -121,6 +121,31 @@ P = {
    note=TB + " Code pages are a decoder parameter (theorems hold for every decoder); the order of get_module_names is not modelled.",
    technique="Coq proof (induction over chunks/tokens, div/mod arithmetic for the token codec) + extracted-model correspondence",
    design_ref="5/C18"),
+ "C02": dict(claimed=True,
+   text="Coq theorems over RK.v/BiffRec.v: every 32-bit RK pattern decodes to the sign-extended 30-bit integer or the double whose "
+        "top 30 bits are the payload, /100 honoured (C02_rk_int_all, C02_rk_float_all: two's complement over Z, not a sweep), "
+        "decode . encode = id for every legal RK form, the forms cover all patterns, the i-th RkRec of a MULRK lands at "
+        "(row, col_first + i), BoolErr table with one-to-one error codes, cached formula values, and C02_xls_sheet_main: for every "
+        "logical sheet and every legal layout (record kind per value, MULRK grouping, ignorable records, DIMENSIONS) the model of the "
+        "sheet loop of parse_workbook + from_sparse returns range_of sheet — induction over items with fuel by record count. "
+        "Tie: hooks rk_num / record iterator / cell parsers on extracted encodings, malformed records (panic prediction) and "
+        "generated .xls files (BIFF8 in CFB) through Xls::new + worksheet_range.",
+   note=TB + " C02_rk_int_float_x100_agree uses Flocq (the four classical axioms ClassicalDedekindReals.sig_not_dec, sig_forall_dec, "
+        "FunctionalExtensionality.functional_extensionality_dep, Classical_Prop.classic); /100.0 and UTF-16 decoding are Section variables "
+        "(hardware division cross-checked against extracted Flocq b64_div on every run). The formula token stream is C14's, strings C12's.",
+   technique="Coq proof (two's-complement arithmetic for RK, induction over record items with fuel) + extracted-model correspondence",
+   design_ref="5/C02"),
+ "C17": dict(claimed=True,
+   text="Coq theorems over Merge.v on Col26/Range: C17_merge_ref_roundtrip (every pair of corners up to XFD1048576 / IV65536 reads back), "
+        "C17_merge_list_exact_xlsx/_xls (count, order, attribution by sheet, for every workbook and every legal encoding), "
+        "C17_table_meta_exact, C17_table_names, C17_table_geometry (data range = reference minus header rows on top and totals rows "
+        "at the bottom) and C17_table_geometry_cells (table data = the sheet window, wherever the table lies relative to the used "
+        "range, via window_spec). Five known classes (EscapedText, AbsoluteTarget, StrictType, InsertRowFalse, EmptyData) with "
+        "refutation lemmas. Tie: hooks get_dimension / parse_merge_cells and generated .xlsx/.xls workbooks through "
+        "merged_regions*, worksheet_merge_cells*, load_tables, table_by_name(_ref).",
+   note=TB + " XML tokenisation, attribute parsing and zip are outside the model (event level); str::parse::<u32> is modelled as parse_u32.",
+   technique="Coq proof (A1 arithmetic, induction over event lists and region lists, reduction to window_spec) + extracted-model correspondence",
+   design_ref="5/C17"),
 }
 REASON_TODO = "not claimed yet: model and theorems for this property are still being built (see DESIGN.md section 9)"
 
@@ -148,7 +173,7 @@ def main():
         "setup_cmd": "./setup.sh",
         "hooks": {
             "guard": "--cfg calamine_verif",
-            "enable": "RUSTFLAGS=\"--cfg calamine_verif\" cargo build --offline (the harness /verif/harness depends on /repo by path; hooks live in src/verif_hooks.rs)",
+            "enable": "RUSTFLAGS=\"--cfg calamine_verif\" cargo build --offline (the harness /verif/harness depends on /repo by path; hooks are the `#[cfg(calamine_verif)] pub mod verif_hooks` blocks at the end of src/{utils,formats,cfb,xls,ods}.rs, src/xlsb/mod.rs, src/xlsx/mod.rs, re-exported from src/lib.rs)",
             "baseline_off_cmd": BASELINE_OFF,
             "source_commits": HOOK_COMMITS,
             "add_only": True,
